@@ -458,8 +458,11 @@ func (w *WAL) ReadAll() (metadata []byte, state raftpb.HardState, ents []raftpb.
 
 	if w.tail() != nil {
 		// create encoder (chain crc with the decoder), enable appending
-		w.encoder, err = newFileEncoder(w.tail().File, w.decoder.lastCRC())
-		if err != nil {
+		// keep err: it may hold ErrSnapshotNotFound
+		var encErr error
+		w.encoder, encErr = newFileEncoder(w.tail().File, w.decoder.lastCRC())
+		if encErr != nil {
+			err = encErr
 			return
 		}
 	}
